@@ -74,10 +74,15 @@ func (self *Compiler) compileStmt(node ast.AnalyzedStatement) {
 			self.compileExpr(node.ReturnValue)
 		}
 
+		// Leaving the function also leaves all of its try-blocks.
+		self.popTryLabels(self.tryDepth, node.Span())
 		self.insert(newOneStringInstruction(Opcode_Jump, self.CurrFn().CleanupLabel), node.Span())
 	case ast.BreakStatementKind:
+		// Leave the try-blocks which were entered inside the loop.
+		self.popTryLabels(self.tryDepth-self.currLoop().tryDepth, node.Span())
 		self.insert(newOneStringInstruction(Opcode_Jump, self.currLoop().labelBreak), node.Span())
 	case ast.ContinueStatementKind:
+		self.popTryLabels(self.tryDepth-self.currLoop().tryDepth, node.Span())
 		self.insert(newOneStringInstruction(Opcode_Jump, self.currLoop().labelContinue), node.Span())
 	case ast.LoopStatementKind:
 		node := node.(ast.AnalyzedLoopStatement)
